@@ -100,7 +100,7 @@ def check(run):
 
     def must_fail(b, f):
         return b["entry"] == "patch.apply" and f["k"] == "trunc" and f["n"] < b["extra"]["_eof"]
-    cases, n = faults.cases_for(bases, space, rng, 0, per_base=None if run.tier == "thorough" else 260, must_fail=must_fail)
+    cases, n = faults.cases_for(bases, space, rng, 0, per_base=None if run.tier == "thorough" else 600, must_fail=must_fail)
     # text-level and path-level faults (named members of the fault space)
     extra = []
     tb = {"id": "text", "entry": "cfg", "extra": {}}
